@@ -41,7 +41,7 @@ def run_one(m, workdir):
     # warm dependency builds: copy the target dirs of the main cache
     main_tgt = os.path.join(VERIF, '.cache', 'target')
     if os.path.isdir(main_tgt):
-        subprocess.run(['cp', '-r', main_tgt, os.path.join(cache, 'target')], check=False)
+        subprocess.run(['cp', '-a', main_tgt, os.path.join(cache, 'target')], check=False)
     try:
         if 'patch' in m:
             r = subprocess.run(['patch', '-p1', '--no-backup-if-mismatch', '-i', m['patch']], cwd=copy, capture_output=True, text=True)
